@@ -122,7 +122,6 @@ def unit_timer(ctx):
     minutes_grid = QUARTERS
     if thorough:
         timeouts += [Fraction(-1, 8), Fraction(1, 8), Fraction(3, 4), Fraction(5, 2), Fraction(4), Fraction(6)]
-        inits += [Fraction(1, 8), Fraction(2)]
         iters += [5, 6, 12]
         minutes_grid = [Fraction(k, 8) for k in range(0, 49)]
     grid = list(itertools.product(timeouts, inits, minutes_grid, iters, [False, True]))
@@ -346,7 +345,7 @@ def unit_sizes(ctx):
     maxvs = [None, 0, 1, 3, 5, 8, 20]
     minvs = [None, 0, 1, 2, 5]
     grid = list(itertools.product(starts, maxvs, minvs))
-    reps = ctx.budget(6, 120)
+    reps = ctx.budget(6, 60)
     for start, mxv, mnv in grid:
         for _ in range(reps):
             ops = [rng.choice(ops_names) for _ in range(rng.choice([3, 6, 9]))]
@@ -372,7 +371,7 @@ def unit_sizes(ctx):
     # AdaptivePopulationSize through init_adaptive_pop_size (parameter_free)
     pop_sizes = list(range(0, 11)) + [13, 21]
     maxps = [None, 0, 1, 2, 3, 4, 5, 6, 8, 13, 21, 55]
-    reps = ctx.budget(6, 250)
+    reps = ctx.budget(6, 120)
     for ps, mx in itertools.product(pop_sizes, maxps):
         for _ in range(reps):
             w = Watcher()
@@ -661,6 +660,8 @@ def run_real(cfg):
             import traceback
             rec['outcome'] = 'raise:' + type(ex).__name__
             rec['exception'] = traceback.format_exc()[-1200:]
+            files = {os.path.basename(f.filename) for f in traceback.extract_tb(ex.__traceback__)}
+            rec['limit_raise'] = bool(files & LIMIT_FILES)
         rec['wall_ms'] = int((time.time() - t0) * 1000)
         start = getattr(opt.timer, 'start', None)
         rec['end_minutes'] = _minutes(datetime.datetime.now() - start) if start else [0, 1]
@@ -694,11 +695,11 @@ def run_case(rec):
     pops = c_list(['{| p_label := %s; p_size := %s; p_gen := %s; p_stag := %s; p_minutes := %s; p_stagdur := %s; p_popsize := %s |}' % (
         LABEL.get(p['label'], 'POtherLabel'), c_nat(p['size']), c_nat(p['gen']), c_nat(p['stag']), fr(p['minutes']),
         fr(p['stagdur']), c_Z(p['pop_size'])) for p in rec['pops']], 'opop')
-    return ('{| r_populational := %s; r_lim := %s; r_maxpop := %s; r_adaptive := %s; r_ok := %s; r_pops := %s; '
+    return ('{| r_populational := %s; r_lim := %s; r_maxpop := %s; r_adaptive := %s; r_ok := %s; r_limit_raise := %s; r_pops := %s; '
             'r_started := %s; r_broke := %s; r_evolved_sizes := %s; r_iters := %s; r_call_minutes := %s; '
             'r_end_minutes := %s; r_wall_ms := %s |}') % (
         c_bool(populational), limits_coq(*cfg_limits(cfg)), oz(cfg.get('max_pop_size')), c_bool(adaptive),
-        c_bool(rec['outcome'] == 'ok'), pops, c_nat(rec['started']), c_bool(rec['broke']),
+        c_bool(rec['outcome'] == 'ok'), c_bool(bool(rec.get('limit_raise'))), pops, c_nat(rec['started']), c_bool(rec['broke']),
         c_list([c_nat(n) for n in rec['evolved_sizes']], 'nat'), c_nat(rec['iters']),
         c_list([fr(m) for m in rec['call_minutes']], 'Q'), fr(rec['end_minutes']), c_Z(rec['wall_ms']))
 
@@ -710,6 +711,9 @@ def summarise(rec):
             'wall_ms': rec.get('wall_ms'), 'exception': rec.get('exception')}
 
 
+# an exception counts against the clause "every combination of stop options is accepted" when it comes out
+# of the limit machinery (the stop lambdas are always called through GroupedCondition)
+LIMIT_FILES = {'timer.py', 'grouped_condition.py', 'population_size.py', 'sequence_iterator.py', 'graph_depth.py'}
 TINY = 0.02      # minutes (1.2 s)
 GENEROUS = 3.0
 
@@ -787,6 +791,8 @@ def judge_run(ctx, group, rec, flags):
         ctx.disagree(group, s, 'the loop model (counters, stop test before each step, stop test at the end) does not explain the observed run')
     if not acc:
         ctx.violate(group, s, 'a documented combination of stop options made optimise() raise: %s' % rec['outcome'])
+    elif rec['outcome'] != 'ok':
+        ctx.notes.append('optimise() raised outside the limit machinery (not a clause of C15): %s' % json.dumps(s)[:1500])
     if not gens:
         ctx.violate(group, s, 'more evolution steps than num_of_generations')
     if not stagn:
